@@ -249,6 +249,14 @@ theorem written_record_reads_back (st : St) (msg : Bytes) (an : Annot) (c : WCmd
     · simp [permitted, marshal, hf, ho]
   · simp [permitted, marshal, hf]
 
+/-- A create / update / insert / delete that is answered with an error has changed no record of any
+    database (in particular an insert of which a later value is refused leaves nothing of the earlier
+    values behind). -/
+theorem refused_write_changes_nothing (st : St) (msg : Bytes) (an : Annot) (op : Bytes) (e : Err)
+    (hk : (classify msg).kind = .write)
+    (herr : (handle st msg an).2 = [errReply op e]) : (handle st msg an).1.dbs = st.dbs :=
+  refused_write_dbs st msg an op e hk herr
+
 /-! ### Non-vacuity -/
 
 -- classification of concrete messages: `7|get|db:k`, `7|cancel`, `7|create|db:k|J{}`, `x`, `7|foo|y`, `7|create|db:k`
@@ -293,6 +301,12 @@ example : accRun accInit [.req [55] .get, .rep [56] .ok] = [] := by decide
 example : ¬ Conforms .get [.ok, .ok] := by
   intro ⟨p, h, _⟩
   simp [run, init, delta] at h
+
+-- a refused insert (no accessor: the record is CBOR) answers with one error and changes nothing
+example :
+    let st : St := { dbs := [{ name := [100, 98], kind := .plain, recs := [([107], { fmt := 67, data := [1] })] }] }
+    (handle st [49, 124, 105, 110, 115, 101, 114, 116, 124, 100, 98, 58, 107, 124, 123, 125] {}).2 = [errReply [49] .noacc] := by
+  decide
 
 -- read back in a concrete database: create db:k with J{} then get
 example :
